@@ -324,7 +324,7 @@ def gen_mode_case(rng, tier):
     if kind == "exposure":
         c["reuse"] = rng.random() < 0.6
     if kind == "calibration":
-        c["gseed"] = rng.choice([1, 2, 3])
+        c["gseed"] = rng.choice([0, 0, 1, 2, 3, 100000])  # 0 and 100000 are the legal boundary values
         c["islands"] = rng.choice([1, 2])
         c["times"] = [1.0]
     return c
@@ -447,8 +447,14 @@ def body(ck: common.Check):
 
     # ---- modes
     ncases = 10 if quick else 80
-    for _ in range(ncases):
-        case = gen_mode_case(rng, ck.tier)
+    directed = [
+        {"mode": "calibration", "pseed": 7, "times": [1.0], "nd": False, "own_seed": None, "gseed": 0, "islands": 1},
+        {"mode": "calibration", "pseed": 0, "times": [1.0], "nd": False, "own_seed": 11, "gseed": 100000, "islands": 2},
+        {"mode": "exposure", "pseed": 0, "times": [1.0, 2.0], "nd": True, "own_seed": 11, "reuse": True},
+        {"mode": "observation", "pseed": 0, "times": [1.0], "nd": False, "own_seed": None, "levels": [10.0, 20.0, 30.0], "dask": True, "scheduler": "threads", "workers": 4},
+    ]
+    for k in range(ncases + len(directed)):
+        case = directed[k] if k < len(directed) else gen_mode_case(rng, ck.tier)
         a = run_mode_case(case, prior=3)
         b = run_mode_case(case, prior=4)
         ck.case({"stream": "modes", **case}, nontrivial=True, stream="modes")
